@@ -73,8 +73,17 @@ ShapeDef(i) ==
                   @@ A("S1", 2, 2) :> Fm(Bin("&", RelRef(1, 2), StrLit(<<120>>)))
                   @@ A("S1", 2, 3) :> Fm(Bin(">", RelRef(1, 1), N1))
                   @@ A("S1", 2, 4) :> Fm(Bin("+", CallN("SUM", <<Rng("", 1, 1, 1, 1), Ref("S 2", 1, 1, FALSE, FALSE)>>), NameRef("Rate")))
+                  @@ A("S1", 2, 5) :> Fm(CallN("SUM", <<Rng("", 1, 1, 1, 1), ErrLit("#N/A")>>))
+                  @@ A("S1", 2, 6) :> Fm(CallN("MAX", <<ErrLit("#REF!"), Rng("", 1, 1, 1, 1)>>))
                   @@ A("S 2", 2, 1) :> Fm(Bin("*", RelRef(1, 1), Ref("S1", 1, 7, TRUE, TRUE))) ),
          names |-> ("Rate" :> Ref("S1", 1, 1, TRUE, TRUE)), inputs |-> {A("S1", 1, 1), A("S 2", 1, 1)}]
+    [] i = "twin" ->         \* the SAME formula text, with unqualified references, on two sheets holding different data
+        [cells |-> ( A("S1", 1, 1) :> Kc(1) @@ A("S 2", 1, 1) :> Kc(5)
+                  @@ A("S1", 2, 1) :> Fm(Bin("+", Bin("*", RelRef(1, 1), N2), N1))
+                  @@ A("S 2", 2, 1) :> Fm(Bin("+", Bin("*", RelRef(1, 1), N2), N1))
+                  @@ A("S1", 3, 1) :> Fm(Bin("+", RelRef(2, 1), Ref("S 2", 2, 1, FALSE, FALSE)))
+                  @@ A("S 2", 3, 1) :> Fm(Bin("-", RelRef(2, 1), Ref("S1", 2, 1, TRUE, TRUE))) ),
+         names |-> <<>>, inputs |-> {A("S1", 1, 1), A("S 2", 1, 1)}]
     [] i = "named" ->
         [cells |-> ( A("S1", 1, 1) :> Kc(1) @@ A("S1", 1, 2) :> Kc(1)
                   @@ A("S1", 2, 1) :> Fm(Bin("+", Bin("*", NameRef("Rate"), N2), RelRef(1, 2)))
@@ -93,7 +102,7 @@ Cells == DOMAIN ShapeDef(shape).cells
 Names == DOMAIN ShapeDef(shape).names
 Inputs == ShapeDef(shape).inputs
 FormulaCells == {c \in Cells : content[c].c = "formula"}
-SetVals == {2, 3}
+SetVals == <<Whole(2), Whole(3), Bool(TRUE)>>      \* TRUE: equal to the initial 1 under a naive ==, but another value
 
 Wb(cont) == [cells |-> cont, names |-> ShapeDef(shape).names]
 Fresh(cont, c) == Eval(cont[c].ast, c[1], Wb(cont))
@@ -138,21 +147,21 @@ Init == /\ shape \in ShapeIds
         /\ stored = [c \in {c \in DOMAIN ShapeDef(shape).cells : ShapeDef(shape).cells[c].c = "const"} |-> ShapeDef(shape).cells[c].v]
         /\ evald = {} /\ gmemo = <<>> /\ obs = [op |-> "none"] /\ hist = <<>> /\ leak = 0
 
-Set(a, n) ==
+Set(a, val) ==
     /\ CanStep /\ a \in Inputs
-    /\ inp' = [inp EXCEPT ![a] = Whole(n)]
-    /\ stored' = [c \in DOMAIN stored \cup {a} |-> IF c = a THEN Whole(n) ELSE stored[c]]
+    /\ inp' = [inp EXCEPT ![a] = val]
+    /\ stored' = [c \in DOMAIN stored \cup {a} |-> IF c = a THEN val ELSE stored[c]]
     /\ obs' = [op |-> "set", x |-> a]
-    /\ hist' = Record("set", a, Whole(n), [t |-> "none"])
+    /\ hist' = Record("set", a, val, [t |-> "none"])
     /\ UNCHANGED <<shape, evald, gmemo, leak>>
 
-SetByName(nm, n) ==
+SetByName(nm, val) ==
     /\ CanStep /\ nm \in Names
     /\ LET t == ShapeDef(shape).names[nm]  a == <<t.sheet, t.col, t.row>> IN
-       /\ inp' = [inp EXCEPT ![a] = Whole(n)]
-       /\ stored' = [c \in DOMAIN stored \cup {a} |-> IF c = a THEN Whole(n) ELSE stored[c]]
+       /\ inp' = [inp EXCEPT ![a] = val]
+       /\ stored' = [c \in DOMAIN stored \cup {a} |-> IF c = a THEN val ELSE stored[c]]
        /\ obs' = [op |-> "set", x |-> a]
-       /\ hist' = Append(hist, [op |-> "setname", x |-> a, name |-> nm, v |-> Whole(n), res |-> [t |-> "none"],
+       /\ hist' = Append(hist, [op |-> "setname", x |-> a, name |-> nm, v |-> val, res |-> [t |-> "none"],
                                 stored |-> [c \in DOMAIN stored' |-> stored'[c]]])
     /\ UNCHANGED <<shape, evald, gmemo, leak>>
 
@@ -209,8 +218,8 @@ Extract(fc, fn) == \* fc: focused cells, fn: focused names
 
 Next == \/ Persist
         \/ \E fc \in SUBSET Cells, fn \in SUBSET Names : Extract(fc, fn)
-        \/ "set" \in Ops /\ \E a \in Inputs, n \in SetVals : Set(a, n)
-        \/ "setname" \in Ops /\ \E nm \in Names, n \in SetVals : SetByName(nm, n)
+        \/ "set" \in Ops /\ \E a \in Inputs, i \in 1..Len(SetVals) : Set(a, SetVals[i])
+        \/ "setname" \in Ops /\ \E nm \in Names, i \in 1..Len(SetVals) : SetByName(nm, SetVals[i])
         \/ "evaluate" \in Ops /\ \E e \in 1..NEval, c \in Cells : Evaluate(e, c)
         \/ "get" \in Ops /\ \E c \in DOMAIN stored : Get(c)
 Spec == Init /\ [][Next]_vars
